@@ -30,10 +30,37 @@ class Timeout(Exception):
 
 # ----------------------------------------------------------------------------- Lean
 
+class _NoLock:
+    def close(self):
+        pass
+
+
+_HELD = None
+
+
 def _lock():
+    if _HELD is not None:          # this process already holds the build lock (see hold_build_lock)
+        return _NoLock()
     f = open(LEAN / ".build.lock", "w")
     fcntl.flock(f, fcntl.LOCK_EX)
     return f
+
+
+class hold_build_lock:
+    """Hold the build lock across translate -> build -> audit, so that a concurrent run against another tree
+    (VERIF_REPO) cannot swap the generated Lean files in between."""
+
+    def __enter__(self):
+        global _HELD
+        self.f = open(LEAN / ".build.lock", "w")
+        fcntl.flock(self.f, fcntl.LOCK_EX)
+        _HELD = self.f
+        return self
+
+    def __exit__(self, *a):
+        global _HELD
+        _HELD = None
+        self.f.close()
 
 
 def lean_build(targets, timeout=3000):
